@@ -36,10 +36,17 @@ def run(ctx, model_ok):
     uni = pc.Universe()
     sg = StreamGen(uni)
     configs = list(itertools.product([False, True], repeat=6))
-    nstreams = 4 if ctx.quick() else 40
+    nstreams = 6 if ctx.quick() else 40
     reqs, info = [], []
     for s in range(nstreams):
-        threads, evs = sg.gen(rng, n_ops=rng.choice([8, 14]))
+        threads, evs = sg.gen(rng, n_ops=rng.choice([8, 14]), rich=(s >= 2 and s % 2 == 0))
+        if s >= 2 and s % 2 == 0:
+            # a declared thread is reported terminated (by itself / by another thread) and keeps emitting records: the dump
+            # still declares its process
+            c = sg.c
+            t0 = threads[0][0]
+            evs += [[t0, c['TRACE_DATA_THREAD_TERMINATE'], 0, [t0, 0, 0, 0]], [t0, c['BSC_getpid'], 1, [0, 0, 0, 0]],
+                    [t0, c['BSC_getpid'], 2, [0, 1, 0, 0]]]
         if s % 2:
             # a sampler window with nested thread data, and bytes that need escaping in the args column
             c = sg.c
@@ -47,7 +54,7 @@ def run(ctx, model_ok):
                     [threads[0][0], c['PERF_Event'], 2, [0, 0, 0, 0]], [0x999, c['BSC_getpid'], 1, [0x27225c0a09, 0x7f80ff, 0, 0]],
                     [0x999, c['BSC_getpid'], 2, [0, 77, 0, 0]]]
         f = sg.v2(threads, evs).hex()
-        for bits in (configs if s < 2 or not ctx.quick() else rng.sample(configs, 8)):
+        for bits in (configs if s < 2 or not ctx.quick() else rng.sample(configs, 6) + [tuple([True] * 6)]):
             cfg = dict(zip(SW, bits), color=False)
             reqs.append({'file': f, 'cfg': cfg, 'calls': ['formatted_kevents', 'traces', 'formatted_traces']})
             info.append((threads, evs, bits))
@@ -178,6 +185,24 @@ def run(ctx, model_ok):
     for ch in colour_changes:
         ctx.failing.append({'input': {'trace_text': ch['text']}, 'expected': ch['plain'], 'actual': ch['colored_without_ansi'],
                             'why': 'colouring changed the text of the trace line'})
+    # colouring never changes the text, on the lines the streams really produce (tables evolving along the stream): the
+    # coloured listing with its escape sequences removed is the plain listing
+    creqs, cbase = [], []
+    seen_files = set()
+    for rq, calls in zip(reqs, out):
+        if rq['file'] in seen_files or not all(rq['cfg'][k] for k in SW) or calls[2]['err']:
+            continue
+        seen_files.add(rq['file'])
+        creqs.append({'file': rq['file'], 'cfg': dict(rq['cfg'], color=True), 'calls': ['formatted_traces']})
+        cbase.append(calls[2]['items'])
+    cout = vlib.run_impl('run_api.py', {'cases': creqs}, timeout=3000)['results'] if creqs else []
+    ctx.evaluations += len(creqs)
+    for rq, plain, calls in zip(creqs, cbase, cout):
+        got = [re.sub(r'\x1b\[[0-9;]*m', '', ln) for ln in calls[0]['items']]
+        if calls[0]['err'] or got != plain:
+            j = next((k for k in range(min(len(got), len(plain))) if got[k] != plain[k]), min(len(got), len(plain)))
+            ctx.failing.append({'input': {'file': rq['file'], 'color': True}, 'expected': plain[j:j + 2], 'actual': calls[0]['err'] or got[j:j + 2],
+                                'why': 'colouring changed the text of the trace lines (escape sequences removed, line %d differs)' % j})
     # the command line: --show-tid / --no-show-tid / --color / --no-color reach the line builders
     from . import cli_common
     cli_common.run(ctx, ['traces', 'kevents', 'callstacks', 'logs'], 120 if ctx.quick() else 900)
